@@ -14,6 +14,8 @@ type shadow struct {
 	wC    int
 	wPos  token.Pos
 	wFn   string
+	wAtom bool
+	rAtom map[int]bool
 	reads map[int]int // thread -> clock of last read
 	rPos  map[int]token.Pos
 	rFn   map[int]string
@@ -92,9 +94,10 @@ func (r *raceState) releaseJoin(t *Thread, vc *[]int) {
 // access is called for every load/store of a memory cell.
 func (e *Engine) access(th *Thread, addr *Value, write bool) {
 	r := e.race
-	if r == nil || r.atomic {
+	if r == nil {
 		return
 	}
+	atom := r.atomic // an atomic operation conflicts with plain accesses only
 	if len(e.threads) == 1 {
 		return // nothing concurrent has ever existed; fork copies the clock
 	}
@@ -126,7 +129,7 @@ func (e *Engine) access(th *Thread, addr *Value, write bool) {
 		}
 	}
 	// write-write / write-read conflicts with last write
-	if s.wT >= 0 && s.wT != th.id && s.wC > vcGet(th.vc, s.wT) {
+	if s.wT >= 0 && s.wT != th.id && s.wC > vcGet(th.vc, s.wT) && !(atom && s.wAtom) {
 		if write {
 			report("write-after-write", s.wPos, s.wT, s.wFn)
 		} else {
@@ -135,20 +138,23 @@ func (e *Engine) access(th *Thread, addr *Value, write bool) {
 	}
 	if write {
 		for t, c := range s.reads {
-			if t != th.id && c > vcGet(th.vc, t) {
+			if t != th.id && c > vcGet(th.vc, t) && !(atom && s.rAtom[t]) {
 				report("write-after-read", s.rPos[t], t, s.rFn[t])
 			}
 		}
-		s.wT, s.wC, s.wPos, s.wFn = th.id, th.vc[th.id], th.pos, fname(th)
+		s.wT, s.wC, s.wPos, s.wFn, s.wAtom = th.id, th.vc[th.id], th.pos, fname(th), atom
 		s.reads = nil
 		s.rPos = nil
 		s.rFn = nil
+		s.rAtom = nil
 	} else {
 		if s.reads == nil {
 			s.reads = map[int]int{}
 			s.rPos = map[int]token.Pos{}
 			s.rFn = map[int]string{}
+			s.rAtom = map[int]bool{}
 		}
+		s.rAtom[th.id] = atom
 		s.reads[th.id] = th.vc[th.id]
 		s.rPos[th.id] = th.pos
 		s.rFn[th.id] = fname(th)
